@@ -165,8 +165,10 @@ package udp
 //@   prop C09 C10
 //@   nopanic
 //@   requires c != nil && c.results != nil
+//@   requires [index_not_pending] !haskey(c.results, index)
 //@   modifies c.results[*], ghost.held[addr(c.lock)]
 //@   ensures [registered] haskey(c.results, index) && c.results[index] == resultChan
+//@   ensures [other_registrations_untouched] forall(k, k != index ==> haskey(c.results, k) == old(haskey(c.results, k)) && c.results[k] == old(c.results[k]))
 //@   ensures [lock_released] ghost.held[addr(c.lock)] == 0
 
 //@ func (*conn).delete
@@ -175,6 +177,7 @@ package udp
 //@   requires c != nil
 //@   modifies c.results[*], ghost.held[addr(c.lock)]
 //@   ensures [unregistered] !haskey(c.results, index)
+//@   ensures [other_registrations_untouched] forall(k, k != index ==> haskey(c.results, k) == old(haskey(c.results, k)) && c.results[k] == old(c.results[k]))
 //@   ensures [lock_released] ghost.held[addr(c.lock)] == 0
 
 //@ func (*conn).loadAndDelete
@@ -185,6 +188,7 @@ package udp
 //@   ensures [found_iff_registered] loaded == old(haskey(c.results, index))
 //@   ensures [returns_the_registered_channel] loaded ==> resultChan == old(c.results[index])
 //@   ensures [entry_removed] !haskey(c.results, index)
+//@   ensures [other_registrations_untouched] forall(k, k != index ==> haskey(c.results, k) == old(haskey(c.results, k)) && c.results[k] == old(c.results[k]))
 //@   ensures [lock_released] ghost.held[addr(c.lock)] == 0
 
 // conn.send: one datagram = header(len(body), index) followed by exactly the body.
